@@ -14,6 +14,7 @@ pub fn run(prop: &str, tier: &str) -> Option<Report> {
         "C15" => crate::checks_e1b::c15(tier),
         "C16" => crate::checks_e1b::c16(tier),
         "C19" => crate::checks_e1::c19(tier),
+        "C17" => crate::c17::c17(tier),
         _ => return crate::registry_ext::run(prop, tier),
     })
 }
@@ -53,6 +54,24 @@ pub fn replay(path: &str) -> i32 {
         Some("e1") => {
             let prop = r["property"].as_str().unwrap_or("");
             let label = r["variant"].as_str().unwrap_or("");
+            if prop == "C17" {
+                let hist: Vec<crate::e1::HistStep> = serde_json::from_value(r["history"].clone()).unwrap_or_default();
+                let tier = r["tier"].as_str().unwrap_or("quick");
+                let Some((spec, _)) = crate::c17::c17_specs(tier).into_iter().find(|(s, _)| s.base.label == label) else {
+                    eprintln!("unknown variant {label}");
+                    return 2;
+                };
+                return match crate::e1::replay_verbose(&spec, &hist) {
+                    Some(v) => {
+                        println!("REPRODUCED [{}] {}", v.signature, v.what);
+                        1
+                    }
+                    None => {
+                        println!("not reproduced");
+                        0
+                    }
+                };
+            }
             let mut spec = None;
             for tier in [r["tier"].as_str().unwrap_or("quick"), "thorough", "quick"] {
                 if let Some(vs) = e1_variants(prop, tier) {
